@@ -1,6 +1,7 @@
 package rules
 
 import (
+	"crsverif/internal/load"
 	"fmt"
 	"sort"
 	"strings"
@@ -74,6 +75,19 @@ func (e *pathEnv) nilnessOf(v ssa.Value) nilness {
 		f := staticCallee(&x.Call)
 		if isFn(f, "fmt", "Errorf") || isFn(f, "errors", "New") {
 			return nonNil
+		}
+		// a log-and-return helper of the repository hands back the error it was given
+		if sf := staticFn(&x.Call); sf != nil && len(sf.Blocks) > 0 && sf.Pkg != nil && strings.HasPrefix(sf.Pkg.Pkg.Path(), load.ModulePath) && e.depth < 4 {
+			for i, a := range x.Call.Args {
+				if i < len(sf.Params) && isErrorType(sf.Params[i].Type()) && returnsParamOrNonNil(sf, sf.Params[i]) {
+					e.depth++
+					n := e.nilnessOf(a)
+					e.depth--
+					if n == nonNil {
+						return nonNil
+					}
+				}
+			}
 		}
 	case *ssa.ChangeInterface:
 		return e.nilnessOf(x.X)
